@@ -11,7 +11,12 @@ cloudsync.sync.state.time:
        assignment incl. the prioritize callback / SyncManager.finished / set_aged / set_force_sync
        / raw `changed` assignment / oid set+clear / change): full scheduling state compared after
        every operation, exact Fractions (the model rounds like a double: fl53);
-  (iii) the laws of the property evaluated directly on the real picks (search for a failing input).
+  (iii) the laws of the property evaluated directly on the real picks (search for a failing input);
+  (iv) second tie: harness/c17_translator.py regenerates coq/theories/GenSched.v (gen_eligible,
+       gen_sort_key) from the CURRENT source of SyncState.change; SchedGenEq.v proves them equal to the
+       model; an AST outside the whitelist is a VIOLATION ... no-failing-input-found;
+  (v)  corpus first: boundary table, the witnesses of the two known findings, one of them replayed end to
+       end on the real engine (CloudSync over two MockProviders, virtual clock in state/manager/mock/event).
 All values are compared as exact rationals; no float is ever compared or printed into a case id."""
 import glob
 import json
@@ -1050,6 +1055,8 @@ def run(ctx):
           "Python set iteration order is an input of the model (taken from list(state._changeset)); theorems hold for every order",
           "is_related_to (path relation used by SyncState.finished) is an input of the model (taken from the real method)",
           "extraction: ExtrOcamlBasic only; OCaml 4.13.1; coq/ocaml/driver.ml",
+          "translator harness/c17_translator.py (typed whitelist over the ast of SyncState.change; tuple comparison and "
+          "`x and y` / `x or 0` truthiness semantics are built into it)",
           "correspondence harness harness/checks/c17.py: generators, virtual clock patched into cloudsync.sync.state.time, "
           "SyncEntry.__hash__ replaced by seeded hashes, harness.envfix (debug_sig replacement)",
           "not modelled: path fill-in (get_latest) inside change(), shuffle=True (random sort key), storage, threads"]
